@@ -300,6 +300,10 @@ type vfC11Params struct {
 	Loss0    float64 `json:"initial_loss_p"`
 	StartNs  int64   `json:"clock_start_ns"`
 	Steps    int     `json:"step_budget"`
+	// share (percent) of the packets sent through the open pacing gate that are NOT ack-eliciting
+	// (isRetransmittable=false: ACK/PADDING only, as an endpoint that mostly receives emits them)
+	AckOnlyPct   int  `json:"gated_non_ack_eliciting_percent"`
+	AckOnlyBurst bool `json:"gated_non_ack_eliciting_bursts"`
 }
 
 type vfC11Pkt struct {
@@ -335,6 +339,7 @@ type vfC11Sim struct {
 	epoch    int64 // bumped by every send, ack/loss event and MTU change
 	lossP    float64
 	backlog  int
+	ackBurst int
 	probes   []int64
 
 	env    vfC11Envelope
@@ -415,6 +420,17 @@ func vfC11GenParams(r *rand.Rand, id string, quick bool) vfC11Params {
 				}
 			}
 		}
+	}
+	switch r.Intn(10) {
+	case 0, 1, 2, 3:
+	case 4, 5:
+		p.AckOnlyPct = 25
+	case 6, 7:
+		p.AckOnlyPct = 75
+	case 8:
+		p.AckOnlyPct = 100
+	default:
+		p.AckOnlyBurst = true
 	}
 	mds := int64(vfC11MinMTU)
 	burstPkts := int(math.Max(float64(p.Bps)/0.8*0.004, float64(10*mds)) / float64(mds))
@@ -533,7 +549,45 @@ func (s *vfC11Sim) sendAckOnly() {
 	s.k.Count("ack_only_sends", 1)
 }
 
+// sendGatedAckOnly: a packet that went through the open pacing gate (SendAny) but carries nothing
+// ack-eliciting. quic-go reports it with isRetransmittable=false and does not add it to bytes in
+// flight; no ACK will ever come for it. It was released by pacing like any other packet, so it counts
+// in full towards the envelope.
+func (s *vfC11Sim) sendGatedAckOnly() {
+	size := 25 + s.r.Int63n(96)
+	if s.r.Intn(5) < 2 {
+		size = 25 + s.r.Int63n(s.mds-24) // ACK + PADDING up to a full datagram
+	}
+	s.pn++
+	s.b.OnPacketSent(monotime.Time(s.now), congestion.ByteCount(s.inflight), congestion.PacketNumber(s.pn), congestion.ByteCount(size), false)
+	s.cumAll += size
+	s.lastSend = s.now
+	s.epoch++
+	s.satN++
+	s.nSends++
+	s.backlog--
+	s.note("sent-gated-non-ack-eliciting", size, s.inflight)
+	s.k.Count("ev_paced_sends", 1)
+	s.k.Count("ev_paced_non_ack_eliciting_sends", 1)
+	if msg := s.env.send(s.now, size); msg != "" {
+		s.k.Violation("brutal:envelope-exceeded", s.replay(), "rate %d B/s (%d %% of the gated packets not ack-eliciting, last one %d B): %s", s.p.Bps, s.p.AckOnlyPct, size, msg)
+		s.fail()
+	}
+}
+
 func (s *vfC11Sim) sendData() {
+	if s.ackBurst > 0 {
+		s.ackBurst--
+		s.sendGatedAckOnly()
+		return
+	}
+	if s.p.AckOnlyBurst && s.r.Intn(60) == 0 {
+		s.ackBurst = 4 + s.r.Intn(300)
+	}
+	if s.p.AckOnlyPct > 0 && s.r.Intn(100) < s.p.AckOnlyPct {
+		s.sendGatedAckOnly()
+		return
+	}
 	size := s.mds
 	probe := false
 	if len(s.probes) > 0 && s.r.Intn(150) == 0 {
@@ -798,7 +852,7 @@ func TestVerifC11SendLoop(t *testing.T) {
 		if k.Guard("brutal:panic-in-send-loop", map[string]any{"case_id": id, "params": p}, s.run) {
 			continue
 		}
-		if s.sawPacing && s.sawAck {
+		if s.sawPacing && (s.sawAck || p.AckOnlyPct == 100) {
 			k.Nontrivial(fmt.Sprintf("%+v", p))
 		}
 		if s.sawCwnd {
